@@ -342,6 +342,24 @@ theorem World.Inv_step (v : Variant) (K : Nat → Hdr → Key) (w : World) (e : 
       rcases List.mem_or_eq_of_mem_set hs with hs | rfl
       · exact hi s hs
       · exact nodup_step v.bmp (K i) (w.view s0) m.toBmp (hi s0 (List.mem_of_getElem? hg))
+  | disconnect i =>
+    simp only [World.step]
+    cases hg : w.sess[i]? with
+    | none => exact hi
+    | some s0 =>
+      simp only
+      cases lifeOf s0.phase with
+      | dead => exact hi
+      | fresh =>
+        intro s hs
+        rcases List.mem_or_eq_of_mem_set hs with hs | rfl
+        · exact hi s hs
+        · simp [NodupHdr]
+      | live =>
+        intro s hs
+        rcases List.mem_or_eq_of_mem_set hs with hs | rfl
+        · exact hi s hs
+        · simp [NodupHdr]
 
 theorem World.Inv_runFrom (v : Variant) (K : Nat → Hdr → Key) (H : History) (w : World) (hi : w.Inv) :
     (w.runFrom v K H).Inv := by
@@ -351,6 +369,18 @@ theorem World.Inv_runFrom (v : Variant) (K : Nat → Hdr → Key) (H : History) 
 
 /-- **Refinement, one event.** The abstraction of the next world is the tracker's next state, and
     the next RIB is the old one after the tracker's events. -/
+theorem applyAll_epilogue (vr : Rib.Variant) (rib : Rib.Rib) (rid : Mui) (par : List (Mui × Mui)) :
+    rib.applyAll vr (epilogue rid par) = Rib.runFrom vr rib [.downBulk (idsForParent rid par)] := by
+  simp [epilogue, Rib.Rib.applyAll, Rib.Rib.apply, Rib.runFrom, Rib.Ev.updates]
+
+theorem applyAll_append (vr : Rib.Variant) (rib : Rib.Rib) (a b : List Rib.Update) :
+    rib.applyAll vr (a ++ b) = (rib.applyAll vr a).applyAll vr b := by
+  simp [Rib.Rib.applyAll]
+
+theorem ribRunFrom_append (vr : Rib.Variant) (rib : Rib.Rib) (a b : Rib.History) :
+    Rib.runFrom vr rib (a ++ b) = Rib.runFrom vr (Rib.runFrom vr rib a) b := by
+  simp [Rib.runFrom]
+
 theorem World.step_ref (v : Variant) (K : Nat → Hdr → Key) (w : World) (e : Ev) (hi : w.Inv)
     (hok : e.ok v.bmp = true) :
     (w.step v K e).abs = (w.abs.step K e).1 ∧
@@ -366,10 +396,29 @@ theorem World.step_ref (v : Variant) (K : Nat → Hdr → Key) (w : World) (e : 
     | some s0 =>
       have hr := sess_ref v (K i) (w.view s0) m (hi s0 (List.mem_of_getElem? hg)) hok
       simp only [Option.map_some, Sess.abs]
-      refine ⟨?_, hr.rib w.rib⟩
       simp only [World.view] at hr
-      rw [← hr.sess, ← hr.reg, ← hr.next]
-      simp [List.map_set, Sess.abs, World.view]
+      have hlife : (TSess.step (K i) ⟨lifeOf s0.phase, upOf s0.peers⟩ w.reg w.next m).s.life
+          = lifeOf (Bmp.step v.bmp (K i) (w.view s0) m.toBmp).st.phase := by
+        rw [← hr.sess]; rfl
+      refine ⟨?_, ?_⟩
+      · rw [← hr.sess, ← hr.reg, ← hr.next]
+        simp [List.map_set, Sess.abs, World.view]
+      · simp only [World.view] at hlife ⊢
+        rw [applyAll_append, ribRunFrom_append, hr.rib w.rib, hlife, ← hr.next]
+        generalize endedBy (lifeOf s0.phase) _ = b
+        cases b with
+        | false => rfl
+        | true => exact applyAll_epilogue _ _ _ _
+  | disconnect i =>
+    simp only [World.step, Track.step, World.abs, List.getElem?_map]
+    cases hg : w.sess[i]? with
+    | none => exact ⟨rfl, rfl⟩
+    | some s0 =>
+      simp only [Option.map_some, Sess.abs]
+      cases hl : lifeOf s0.phase with
+      | dead => exact ⟨rfl, rfl⟩
+      | fresh => exact ⟨by simp [List.map_set, Sess.abs, lifeOf, upOf], applyAll_epilogue _ _ _ _⟩
+      | live => exact ⟨by simp [List.map_set, Sess.abs, lifeOf, upOf], applyAll_epilogue _ _ _ _⟩
 
 theorem World.runFrom_ref (v : Variant) (K : Nat → Hdr → Key) (H : History) (w : World) (hi : w.Inv)
     (hok : H.all (Ev.ok v.bmp) = true) :
@@ -494,6 +543,11 @@ theorem Track.step_reg_stable (K : Nat → Hdr → Key) (T : Track) (e : Ev) (k 
     cases T.sess[i]? with
     | none => exact h
     | some s => exact TSess.step_reg_stable (K i) s T.reg T.next m k v h
+  | disconnect i =>
+    simp only [Track.step]
+    cases T.sess[i]? with
+    | none => exact h
+    | some s => simp only; cases s.life <;> exact h
 
 /-- **Register lookups are stable along every history**: an id, once handed out for a key class
     (router, peer address, AS, RIB type), is what every later `find_or_register` of that class gets. -/
@@ -569,6 +623,25 @@ theorem Track.Inv_step (K : Nat → Hdr → Key) (T : Track) (e : Ev) (hi : T.In
           exact TSess.step_up_sub (K i) s0 T.reg T.next m (hi i s0 hg) e he
         · cases hs
       · exact TSess.step_reg_stable (K i) s0 T.reg T.next m _ _ (hi j s hs e he)
+  | disconnect i =>
+    simp only [Track.step]
+    cases hg : T.sess[i]? with
+    | none => exact hi
+    | some s0 =>
+      have key : (⟨T.sess.set i ⟨.dead, []⟩, T.reg, T.next, T.rids, T.par⟩ : Track).Inv K := by
+        intro j s hs e he
+        simp only at hs ⊢
+        rw [List.getElem?_set] at hs
+        split at hs
+        · split at hs
+          · cases hs; cases he
+          · cases hs
+        · exact hi j s hs e he
+      simp only
+      cases s0.life with
+      | dead => exact hi
+      | fresh => exact key
+      | live => exact key
 
 theorem Track.Inv_runFrom (K : Nat → Hdr → Key) (H : History) (T : Track) (hi : T.Inv K) :
     (T.runFrom K H).Inv K := by
@@ -657,6 +730,15 @@ theorem specRun_entry_intended (vr : Rib.Variant) (hv : vr.perRecordWithdraw = f
 
 /-! ### Single steps of the composed model, spelled out (C02) -/
 
+@[simp] theorem newChildren_self (rid n : Mui) : newChildren rid n n = [] := by simp [newChildren]
+
+theorem newChildren_succ (rid n : Mui) : newChildren rid n (n + 1) = [(n, rid)] := by simp [newChildren]
+
+theorem lifeOf_terminated : lifeOf .terminated = .dead := rfl
+
+theorem lifeOf_live {ph : Bmp.Phase} (hl : ph = .dumping ∨ ph = .updating) : lifeOf ph = .live := by
+  rcases hl with hl | hl <;> rw [hl] <;> rfl
+
 theorem set_self {α : Type} (l : List α) (i : Nat) (a : α) (h : l[i]? = some a) : l.set i a = l := by
   obtain ⟨hi, rfl⟩ := List.getElem?_eq_some_iff.mp h
   exact List.set_getElem_self hi
@@ -688,11 +770,11 @@ theorem stepCore_idle (vb : Bmp.Variant) (K1 : Hdr → Key) (st : Bmp.State) (h 
 theorem World.step_peerDown (v : Variant) (K : Nat → Hdr → Key) (w : World) (i : Nat) (h : Hdr) (s : Sess) (p : Bmp.Peer)
     (hs : w.sess[i]? = some s) (hl : s.phase = .dumping ∨ s.phase = .updating) (hf : Bmp.findPeer h s.peers = some p) :
     w.step v K (.msg i (.peerDown h)) =
-      { sess := w.sess.set i ⟨s.phase, Bmp.erasePeer h s.peers⟩, reg := w.reg, next := w.next,
-        rib := w.rib.withdrawForIngress v.rib p.mui none } := by
+      { w with sess := w.sess.set i ⟨s.phase, Bmp.erasePeer h s.peers⟩,
+               rib := w.rib.withdrawForIngress v.rib p.mui none } := by
   simp only [World.step, hs, Bmp.step_st, Bmp.step_out, Msg.toBmp]
   rw [stepCore_peerDown v.bmp (K i) (w.view s) h hl]
-  simp [World.view, Bmp.peerDown, hf, emit, Rib.Rib.applyAll, Rib.Rib.apply]
+  simp [World.view, Bmp.peerDown, hf, emit, Rib.Rib.applyAll, Rib.Rib.apply, lifeOf_live hl, endedBy]
 
 /-- Peer Down of a header that is not up (any phase): nothing at all changes. -/
 theorem World.step_peerDown_reject (v : Variant) (K : Nat → Hdr → Key) (w : World) (i : Nat) (h : Hdr) (s : Sess)
@@ -706,22 +788,39 @@ theorem World.step_peerDown_reject (v : Variant) (K : Nat → Hdr → Key) (w : 
     · rw [stepCore_peerDown _ _ _ _ (Or.inr hp)]; simp [Bmp.peerDown, World.view, hf]
     · exact stepCore_idle _ _ _ _ (Or.inr hp)
   rw [h1]
-  simp [World.view, emit, Rib.Rib.applyAll, set_self _ _ _ hs]
+  have he : endedBy (lifeOf s.phase) (lifeOf s.phase) = false := by cases s.phase <;> rfl
+  simp [World.view, emit, Rib.Rib.applyAll, set_self _ _ _ hs, he]
 
-/-- Termination in either live phase: the session ends with an empty peer table and
-    `WithdrawBulk(ids of the up peers)` reaches the RIB (nothing, when no peer is up). -/
+/-- Termination in either live phase: the session ends with an empty peer table;
+    `WithdrawBulk(ids of the up peers)` reaches the RIB (nothing, when no peer is up), the handler leaves
+    its read loop and its epilogue sends `WithdrawBulk(ids_for_parent(router id))`. -/
 theorem World.step_term (v : Variant) (K : Nat → Hdr → Key) (w : World) (i : Nat) (s : Sess)
     (hs : w.sess[i]? = some s) (hl : s.phase = .dumping ∨ s.phase = .updating) :
     w.step v K (.msg i .term) =
-      { sess := w.sess.set i ⟨.terminated, []⟩, reg := w.reg, next := w.next,
-        rib := (s.peers.map (·.mui)).foldl (fun r m => r.withdrawForIngress v.rib m none) w.rib } := by
+      { w with sess := w.sess.set i ⟨.terminated, []⟩,
+               rib := (idsForParent (w.rids.getD i 0) w.par).foldl (fun r m => r.withdrawForIngress v.rib m none)
+                 ((s.peers.map (·.mui)).foldl (fun r m => r.withdrawForIngress v.rib m none) w.rib) } := by
   simp only [World.step, hs, Bmp.step_st, Bmp.step_out, Msg.toBmp]
   rw [stepCore_term v.bmp (K i) (w.view s) hl]
   unfold Bmp.terminate
   simp only [World.view]
   cases hm : s.peers.map (·.mui) with
-  | nil => simp [emit, Rib.Rib.applyAll]
-  | cons a b => simp [emit, Rib.Rib.applyAll, Rib.Rib.apply]
+  | nil => simp [emit, Rib.Rib.applyAll, Rib.Rib.apply, lifeOf_live hl, lifeOf_terminated, endedBy, epilogue]
+  | cons a b => simp [emit, Rib.Rib.applyAll, Rib.Rib.apply, lifeOf_live hl, lifeOf_terminated, endedBy, epilogue]
+
+/-- The connection is lost (no Termination message) in any phase in which it is still read: the epilogue
+    alone reaches the RIB; the state machine is dropped. -/
+theorem World.step_disconnect (v : Variant) (K : Nat → Hdr → Key) (w : World) (i : Nat) (s : Sess)
+    (hs : w.sess[i]? = some s) (hl : s.phase ≠ .terminated) :
+    w.step v K (.disconnect i) =
+      { w with sess := w.sess.set i ⟨.terminated, []⟩,
+               rib := (idsForParent (w.rids.getD i 0) w.par).foldl (fun r m => r.withdrawForIngress v.rib m none) w.rib } := by
+  simp only [World.step, hs]
+  cases hp : s.phase with
+  | terminated => exact absurd hp hl
+  | initiating => simp [lifeOf, epilogue, Rib.Rib.applyAll, Rib.Rib.apply]
+  | dumping => simp [lifeOf, epilogue, Rib.Rib.applyAll, Rib.Rib.apply]
+  | updating => simp [lifeOf, epilogue, Rib.Rib.applyAll, Rib.Rib.apply]
 
 /-! ### C03 at the RIB level for every variant that keeps the global marker
 
@@ -760,28 +859,38 @@ theorem flap_exact (vr : Rib.Variant) (hv : vr.perRecordWithdraw = false) (h1 h2
 theorem Track.step_peerDown (K : Nat → Hdr → Key) (T : Track) (i : Nat) (h : Hdr) (s : TSess) (m : Mui)
     (hs : T.sess[i]? = some s) (hl : s.life = .live) (hu : Bmp.lookupUp h s.up = some m) :
     T.step K (.msg i (.peerDown h)) =
-      (⟨T.sess.set i ⟨.live, s.up.filter (fun e => e.1 != h)⟩, T.reg, T.next⟩, [.down m]) := by
-  simp [Track.step, hs, TSess.step, hl, hu]
+      ({ T with sess := T.sess.set i ⟨.live, s.up.filter (fun e => e.1 != h)⟩ }, [.down m]) := by
+  simp [Track.step, hs, TSess.step, hl, hu, endedBy]
 
 theorem Track.step_peerUp (K : Nat → Hdr → Key) (T : Track) (i : Nat) (h : Hdr) (e c : Bool) (s : TSess) (m : Mui)
     (hs : T.sess[i]? = some s) (hl : s.life = .live) (hu : Bmp.lookupUp h s.up = none)
     (hk : Bmp.lookupKey (K i h) T.reg = some m) :
-    T.step K (.msg i (.peerUp h e c)) = (⟨T.sess.set i ⟨.live, s.up ++ [(h, m)]⟩, T.reg, T.next⟩, []) := by
-  simp [Track.step, hs, TSess.step, hl, hu, regFor_of_lookup _ _ _ _ hk]
+    T.step K (.msg i (.peerUp h e c)) = ({ T with sess := T.sess.set i ⟨.live, s.up ++ [(h, m)]⟩ }, []) := by
+  simp [Track.step, hs, TSess.step, hl, hu, regFor_of_lookup _ _ _ _ hk, endedBy]
 
 theorem Track.step_routeMon (K : Nat → Hdr → Key) (T : Track) (i : Nat) (h : Hdr) (t : Bmp.Rm) (u : Rib.Upd) (s : TSess)
     (m : Mui) (hs : T.sess[i]? = some s) (hl : s.life = .live) (hu : Bmp.lookupUp h s.up = some m)
     (hd : deliverable t = true) :
     T.step K (.msg i (.routeMon h t u)) = (T, [.upd m u]) := by
-  simp [Track.step, hs, TSess.step, hl, hu, hd, set_self _ _ _ hs]
+  simp [Track.step, hs, TSess.step, hl, hu, hd, set_self _ _ _ hs, endedBy]
 
 theorem Track.step_term (K : Nat → Hdr → Key) (T : Track) (i : Nat) (s : TSess)
     (hs : T.sess[i]? = some s) (hl : s.life = .live) (hne : s.up ≠ []) :
-    T.step K (.msg i .term) = (⟨T.sess.set i ⟨.dead, []⟩, T.reg, T.next⟩, [.downBulk (s.up.map (·.2))]) := by
+    T.step K (.msg i .term) = ({ T with sess := T.sess.set i ⟨.dead, []⟩ },
+      [.downBulk (s.up.map (·.2)), .downBulk (idsForParent (T.rids.getD i 0) T.par)]) := by
   simp only [Track.step, hs, TSess.step, hl]
   cases hm : s.up with
   | nil => exact absurd hm hne
-  | cons a b => simp
+  | cons a b => simp [endedBy]
+
+theorem Track.step_disconnect (K : Nat → Hdr → Key) (T : Track) (i : Nat) (s : TSess)
+    (hs : T.sess[i]? = some s) (hl : s.life ≠ .dead) :
+    T.step K (.disconnect i) = ({ T with sess := T.sess.set i ⟨.dead, []⟩ },
+      [.downBulk (idsForParent (T.rids.getD i 0) T.par)]) := by
+  cases hp : s.life with
+  | dead => exact absurd hp hl
+  | fresh => simp [Track.step, hs, hp]
+  | live => simp [Track.step, hs, hp]
 
 /-- Peer Down then Peer Up of header `h` on session `i`. -/
 def flapMsgs (i : Nat) (h : Hdr) (e c : Bool) : History := [.msg i (.peerDown h), .msg i (.peerUp h e c)]
